@@ -90,7 +90,7 @@ PROPS = {
     "C01": {
         "streams": ["array", "persist", "settings", "nested"], "driver": {"array": "array", "persist": "array", "settings": "settings", "nested": "world"}, "level": "proof",
         "trusted_base": LEAN_TB, "assumptions": ARRAY_ASSUME + [
-            "nested containers as elements are covered by C10's World model, not by these theorems (elements here are plain values of any size and references)",
+            "nested containers as elements are covered by C10's World model, not by the array-level theorems (elements there are plain values of any size and references); that in-range requests through the handle of an array nested in / holding containers never fail, and that an error is exactly the array model's argument error, is C10Total.arrInsert/arrSet/arrRemove/arrGet/arrPop_total, *_errors and, along every history, C10Hist.history_progress / history_no_internal_failure (registered here and under C10)",
             "the guard count < 2^32-1 (maxArrayElementCount) is a hypothesis of insert_refines; at the excluded point the code returns its dedicated error, reproduced by the model"],
         "rule": "array histories (insert/append/set/remove/get/pop/type/count/iterators, out-of-range requests) at T in {256,257,511,512,1023,1024,32768,random}, 8 element-size profiles (tiny, mid, at the inline limit, externalised, just under half a slab, fixed, quarter, mixture), 5 position profiles, 4 operation mixes; reopen by root ID after commits and crashes; distinct = distinct (T, length) programs",
         "explanation": "Theorems: get/insert/set/remove/pop/count/setType_refines (the array model refines List operations for EVERY legal threshold, every value size >= 1, every position; in-range requests never fail; root ID and type stable), route_linear_eq_binary. Tie: every operation of every history replayed on the model; observations, net SlabStorage effects, dumps of every stored slab and periodic full-tree dumps must be identical; thresholds and constants compared exhaustively. Oracle: shadow slice.",
